@@ -67,6 +67,14 @@ CLAIMED = {
         note="only the installed mmcif-pdbx 2.1.0 can be exercised ('any supported version' is partial); header categories are taken from a template (a CIF without them crashes read_cif: outside the generated domain)",
         ref="DESIGN.md §4 C10",
     ),
+    "C14": dict(
+        text="Lean theorems about a model of cells.py: for every rational coordinate (negative, zero, on a boundary, far away) the key arithmetic puts it into a contiguous interval of width <= s whose lower end is a multiple of s; "
+        "coordinates closer than the cell size land in the same or an adjacent cell; under the bookkeeping invariant every other registered atom in an adjacent cell is returned by the 27-cell query; "
+        "and the invariant holds after EVERY sequence of protocol-obeying place / remove / move operations. Model tied to the real Cells by random operation sequences (incl. protocol-violating ones). "
+        "The end-to-end claim additionally needs the callers to obey the protocol: monitored on real runs (every neighbour query compared with brute force over the live structure); the call sites that break it are genuine defects listed as known findings.",
+        note="partial by nature: caller discipline is monitored on runs, not proved for all structures; int() truncation supplied by the driver",
+        ref="DESIGN.md §4 C14",
+    ),
     "C15": dict(
         text="Lean theorems over the reals about a model of quatfit.py / utilities.py written once over an arithmetic interface: a unit quaternion gives an isometry that preserves cross products (proper rotation, never a mirror image); "
         "the torsion matrix is an isometry fixing the axis for every angle; qchichange keeps all distances among moved points and to every point of the axis; the Jacobi eigenvector matrix stays orthogonal after ANY number of sweeps, "
